@@ -10,7 +10,8 @@ THEOREMS = [f"Nice.Props.C03.{t}" for t in (
     "C03_lookalike_delivered")] + [
     "Nice.Props.C03Flow.C03_inbound_effects_need_auth", "Nice.Props.C03Flow.C03_discovery_agents_only_validate_responses",
     "Nice.Props.C03Flow.C03_inbound_consumes_control_traffic", "Nice.Props.C03Flow.summary_ok", "Nice.Flow.reach_sound",
-    "Nice.Props.C04.C04_unmatched_is_response"]
+    "Nice.Props.C04.C04_unmatched_is_response", "Nice.Props.C03Recv.C03_data_only_from_validated_source",
+    "Nice.Props.C03Recv.summary_ok"]
 TRUSTED = [
     "Lean 4 kernel; axioms propext, Classical.choice, Quot.sound only (audited every run)",
     "Nice/Model/Gate.lean: hand-written status->effect table of conn_check_handle_inbound_stun and the demultiplexer of "
@@ -23,6 +24,9 @@ TRUSTED = [
     "a kernel-checked soundness proof, evaluated by `decide +kernel`).  Trusted: the translator, the purity list, the semantics "
     "`Exec`, and that stun_agent_validate returns UNMATCHED_RESPONSE only for responses (theorem C04_unmatched_is_response "
     "about the validation model)",
+    "Nice/Gen/RecvMessage.lean: skeleton of agent_recv_message_unlocked regenerated the same way (tracked: the returned RecvStatus, the "
+    "answer of nice_component_verify_remote_candidate, the answer of the STUN handler; `goto done` as a block exit): RECV_SUCCESS only "
+    "after the source gate said yes and the handler did not claim the datagram (C03_data_only_from_validated_source)",
     "tie = paired simulations of two real agents: the same seeded session is run with and without an off-path attacker "
     "(random bytes, STUN of every class/method with correct USERNAME and missing / truncated / empty / over-long / wrong-key "
     "MESSAGE-INTEGRITY, forged responses and 487/403 errors with guessed transaction ids, role-flipping ICE-CONTROLLING, "
